@@ -7,6 +7,7 @@ import subprocess
 import sys
 
 ROOT = os.path.dirname(os.path.dirname(os.path.abspath(__file__)))
+REPO = os.environ.get("FC_REPO", "/repo")   # a private checkout when experimenting in a sandbox copy
 
 
 def main():
@@ -14,10 +15,10 @@ def main():
     props = sys.argv[2:]
     if props == ["all"]:
         props = [c["property_id"] for c in json.load(open(os.path.join(ROOT, "MANIFEST.json")))["checks"]]
-    st = subprocess.run(["git", "-C", "/repo", "status", "--porcelain", "--untracked-files=no"], capture_output=True, text=True).stdout
+    st = subprocess.run(["git", "-C", REPO, "status", "--porcelain", "--untracked-files=no"], capture_output=True, text=True).stdout
     if st.strip():
-        sys.exit("/repo has local changes; refusing")
-    subprocess.check_call(["git", "-C", "/repo", "apply", patch])
+        sys.exit(REPO + " has local changes; refusing")
+    subprocess.check_call(["git", "-C", REPO, "apply", patch])
     results = {}
     try:
         for p in props:
@@ -26,7 +27,7 @@ def main():
             results[p] = (r.returncode, lines, r.stderr.strip().split("\n")[-1])
             print(p, "rc=%d" % r.returncode, "; ".join(lines)[:300], "|", results[p][2][:200], flush=True)
     finally:
-        subprocess.check_call(["git", "-C", "/repo", "checkout", "--", "."])
+        subprocess.check_call(["git", "-C", REPO, "checkout", "--", "."])
     caught = [p for p, (rc, _, _) in results.items() if rc != 0]
     print("CAUGHT-BY:", " ".join(caught) if caught else "none")
 
